@@ -142,4 +142,19 @@ where
     pub fn is_empty(&self) -> bool {
         self.map.is_empty()
     }
+
+    /// Verification hook: every (key, value) pair of the map, each once, sorted by key.
+    #[cfg(kanata_verif)]
+    pub fn verif_entries(&self) -> Vec<(Vec<K>, V)> {
+        let mut out: Vec<(Vec<K>, V)> = vec![];
+        for kvs in self.map.values() {
+            for kv in kvs.iter() {
+                if !out.iter().any(|(k, _)| k.as_slice() == kv.key.as_ref()) {
+                    out.push((kv.key.to_vec(), kv.value.clone()));
+                }
+            }
+        }
+        out.sort_by(|a, b| a.0.cmp(&b.0));
+        out
+    }
 }
